@@ -33,6 +33,11 @@ use {
 pub struct Vec<T> {
     buf: RawBuf<T>,
     len: usize,
+    /// Created with an exact size (`vec![x; n]`, `with_capacity`, `from`):
+    /// only such a vector is ever re-sized. Kept as a separate (almost always
+    /// concrete) flag so that the model checker can prune the re-size path of
+    /// vectors that start empty.
+    exact: bool,
 }
 
 unsafe impl<T: Send> Send for Vec<T> {}
@@ -44,6 +49,7 @@ impl<T> Vec<T> {
         Self {
             buf: RawBuf::empty(),
             len: 0,
+            exact: false,
         }
     }
 
@@ -56,6 +62,7 @@ impl<T> Vec<T> {
         Self {
             buf: RawBuf::with_cap(capacity),
             len: 0,
+            exact: true,
         }
     }
 
@@ -120,10 +127,19 @@ impl<T> Vec<T> {
             crate::verif_capacity!("VERIF-CAPACITY: Vec: more elements than VCAP");
         }
 
-        if self.buf.cap == 0 {
+        if !self.exact {
+            // started empty: the buffer is either unallocated or has `vcap` slots
+            if self.buf.cap != 0 {
+                crate::verif_capacity!("VERIF-CAPACITY: Vec: more elements than VCAP");
+            }
+
             self.buf = RawBuf::with_cap(vcap);
+        } else if self.buf.cap == 0 {
+            self.buf = RawBuf::with_cap(vcap);
+            self.exact = false;
         } else {
             self.buf.regrow(self.len, vcap);
+            self.exact = false;
         }
     }
 
@@ -417,6 +433,7 @@ impl<T> Vec<T> {
         Self {
             buf: RawBuf::with_cap(capacity),
             len: 0,
+            exact: true,
         }
     }
 }
